@@ -13,10 +13,15 @@ import (
 )
 
 var cfgs = map[string]Cfg{
-	"default": {Null: true},
-	"pt":      {ProtoTime: true, Null: true},
+	"default": {Null: true, BQ: true},
+	"pt":      {ProtoTime: true, Null: true, BQ: true},
 	"pa":      {ProtoArrays: true, Null: true},
 	"both":    {ProtoTime: true, ProtoArrays: true, Null: true},
+	"mk":      {Null: true, Marker: "plain"},
+	"mktag":   {Null: true, Marker: "tagged"},
+	"mkboth":  {Null: true, Marker: "both", ProtoTime: true},
+	"bq":      {Null: true, BQ: true},
+	"pkg":     {Null: false}, // the package-level functions (plenc.Marshal / plenc.Unmarshal)
 }
 
 func cmdGen(args []string) {
@@ -50,7 +55,7 @@ func cmdGen(args []string) {
 		}
 		switch *kind {
 		case "codec":
-			o := gen.Opts{Null: cfg.Null, Named: true, Options: true, Proto: cfg.ProtoArrays}
+			o := gen.Opts{Null: cfg.Null, Named: true, Options: true, Proto: cfg.ProtoArrays, BQ: cfg.BQ}
 			var t *abs.TD
 			for {
 				t = gen.Type(r, o, *depth, false)
